@@ -42,9 +42,43 @@ def decode(lib, system, coords):
     return out
 
 
+# Set by the driver for the symbolic run of a family that opts in: operands handed out by the run are
+# decoded into abstraction symbols (linked to their defining expressions, used lazily by the prover).
+ABSTRACT_RUN = None
+
+
 def cart(lib, v):
     system, coords = lanes.stored(v)
+    R = ABSTRACT_RUN
+    if R is not None and getattr(R, "mode", "") == "sym" and system != lanes.CART[len(system) + 1]:
+        cache = R.__dict__.setdefault("_cart_cache", {})
+        hit = cache.get(id(v))
+        if hit is not None and hit[0] is v and hit[1] == tuple(id(c) for c in coords):
+            return list(hit[2])
+        tracked = [i for i, (w, _) in enumerate(getattr(R, "operands", [])) if w is v]
+        if tracked:
+            out = _cart_abstract(R, lib, system, coords, f"_{tracked[0]}")
+            cache[id(v)] = (v, tuple(id(c) for c in coords), out)
+            return list(out)
     return decode(lib, system, coords)
+
+
+def _cart_abstract(R, lib, system, coords, tag):
+    spatial = decode(lib, system[:2] if len(system) > 2 else system, coords[:3] if len(system) > 2 else coords)
+    out = []
+    for i, e in enumerate(spatial):
+        if (i < 2 and system[0] == "xy") or (i == 2 and system[1] == "z"):
+            out.append(coords[i])
+        else:
+            out.append(R.abstract(f"c{'xyz'[i]}{tag}", e))
+    if len(system) == 3:
+        if system[2] == "t":
+            out.append(coords[3])
+        else:
+            tau = coords[3]
+            t2 = lib.copysign(tau * tau, tau) + out[0] * out[0] + out[1] * out[1] + out[2] * out[2]
+            out.append(R.abstract(f"ct{tag}", t2, nonneg_root=True))
+    return out
 
 
 # ---- scalars of one vector ------------------------------------------------------------------
